@@ -704,3 +704,88 @@ class _MathFacade:
 math = _MathFacade()
 
 FACADES = {"numpy": "np", "math": "math"}
+
+
+# -- pandas patches (symbolic workers only) -------------------------------------
+
+
+def canon_keys(values):
+    """Replace every element of a key array by the first-seen element it is
+    equal to (equality decided by the solver, forking), so that hashing-based
+    pandas code (groupby, unique, duplicated ...) puts semantically equal keys
+    into one bucket although a proxy and a plain number hash differently."""
+    reps = []
+    out = []
+    for v in values:
+        found = None
+        for r in reps:
+            if isinstance(v, Sym) or isinstance(r, Sym):
+                same = bool(v == r)
+            else:
+                same = (v == r) or (_is_nan(v) and _is_nan(r))
+            if same:
+                found = r
+                break
+        if found is None:
+            reps.append(v)
+            found = v
+        out.append(found)
+    return _obj_array(out)
+
+
+_patched = False
+
+
+def install_pandas_patches():
+    global _patched
+    if _patched:
+        return
+    _patched = True
+    orig_df_groupby = _pd.DataFrame.groupby
+    orig_s_groupby = _pd.Series.groupby
+
+    def df_groupby(self, by=None, *a, **k):
+        if _sym_mode() and by is not None:
+            names = by if isinstance(by, list) else [by]
+            if all(isinstance(n, str) and n in self.columns for n in names):
+                symcols = [n for n in names if self[n].dtype == object and has_sym(self[n])]
+                if symcols:
+                    self = self.copy()
+                    for n in symcols:
+                        self[n] = canon_keys(self[n].values)
+            elif isinstance(by, (_pd.Series, _np.ndarray)) and by.dtype == object and has_sym(by):
+                vals = canon_keys(by.values if isinstance(by, _pd.Series) else by)
+                by = _pd.Series(vals, index=by.index) if isinstance(by, _pd.Series) else vals
+        return orig_df_groupby(self, by, *a, **k)
+
+    def s_groupby(self, by=None, *a, **k):
+        if _sym_mode() and isinstance(by, (_pd.Series, _np.ndarray)) and by.dtype == object and has_sym(by):
+            vals = canon_keys(by.values if isinstance(by, _pd.Series) else by)
+            by = _pd.Series(vals, index=by.index) if isinstance(by, _pd.Series) else vals
+        return orig_s_groupby(self, by, *a, **k)
+
+    _pd.DataFrame.groupby = df_groupby
+    _pd.Series.groupby = s_groupby
+
+    orig_unique = _pd.Series.unique
+    orig_dup = _pd.Series.duplicated
+    orig_dropdup = _pd.Series.drop_duplicates
+
+    def s_unique(self, *a, **k):
+        if _sym_mode() and self.dtype == object and has_sym(self):
+            return orig_unique(_pd.Series(canon_keys(self.values), index=self.index), *a, **k)
+        return orig_unique(self, *a, **k)
+
+    def s_duplicated(self, *a, **k):
+        if _sym_mode() and self.dtype == object and has_sym(self):
+            return orig_dup(_pd.Series(canon_keys(self.values), index=self.index), *a, **k)
+        return orig_dup(self, *a, **k)
+
+    def s_drop_duplicates(self, *a, **k):
+        if _sym_mode() and self.dtype == object and has_sym(self):
+            return orig_dropdup(_pd.Series(canon_keys(self.values), index=self.index, name=self.name), *a, **k)
+        return orig_dropdup(self, *a, **k)
+
+    _pd.Series.unique = s_unique
+    _pd.Series.duplicated = s_duplicated
+    _pd.Series.drop_duplicates = s_drop_duplicates
